@@ -20,17 +20,17 @@ type readResult[T signal.SignalTypes] struct {
 }
 
 // readAll runs every read-only entry point on the shared buffer with the given (pre-drawn) arguments.
-func readAll[T signal.SignalTypes](w *signal.Buffer[T], C, L, i, a, b, c int, r *readResult[T]) {
+func readAll[T signal.SignalTypes](w *signal.Buffer[T], C, L, full, i, a, b, c int, r *readResult[T]) {
 	r.shape = w.Len() + 3*w.Cap() + 5*w.Length() + 7*w.Capacity() + 11*w.Channels() + 13*int(w.BitDepth())
 	r.bufferIndices = w.BufferIndex(c, i)
 	r.flat = make([]T, C*L+1)
 	r.n1 = signal.Read(w, r.flat)
 	r.striped = make([][]T, C)
 	for ch := range r.striped {
-		r.striped[ch] = make([]T, L)
+		r.striped[ch] = make([]T, full) // striped reads cover complete frames only
 	}
 	r.n2 = signal.ReadStriped(w, r.striped)
-	if L > 0 {
+	if full > 0 {
 		r.sample = w.Sample(w.BufferIndex(c, i))
 		v := w.Channel(c)
 		r.chSample = v.Sample(i)
@@ -61,16 +61,23 @@ func C19_Readers[T signal.SignalTypes]() {
 	base := allocAny[T](C, K, "base")
 	s, e := window("w", K)
 	w := base.Slice(s, e)
-	L := e - s
+	L, full := e-s, e-s
+	if e < K {
+		// a partly filled last frame (unaligned length) is part of the shared state too
+		for i, n := 0, vf.Pick("partial", 0, C-1); i < n; i++ {
+			w.AppendSample(vf.Any[T]("tail"))
+			L = e - s + 1
+		}
+	}
 	R := vf.Param("Readers", 2)
 	// per-reader arguments, drawn before the goroutines start
 	is, as, bs, cs := make([]int, R), make([]int, R), make([]int, R), make([]int, R)
 	for r := 0; r < R; r++ {
-		if L > 0 {
-			is[r] = vf.Pick("i", 0, L-1)
+		if full > 0 {
+			is[r] = vf.Pick("i", 0, full-1)
 		}
 		cs[r] = vf.Pick("c", 0, C-1)
-		as[r] = vf.Pick("a", 0, K-s)
+		as[r] = vf.Pick("a", 0, L)
 		bs[r] = vf.Pick("b", as[r], K-s)
 	}
 	k := vf.IntRange("k", 0, base.Len()-1)
@@ -79,7 +86,7 @@ func C19_Readers[T signal.SignalTypes]() {
 	fs := make([]func(), R)
 	for r := 0; r < R; r++ {
 		r := r
-		fs[r] = func() { readAll(w, C, L, is[r], as[r], bs[r], cs[r], &res[r]) }
+		fs[r] = func() { readAll(w, C, L, full, is[r], as[r], bs[r], cs[r], &res[r]) }
 	}
 	vf.Par(fs...)
 	vf.Cover("joined")
@@ -87,12 +94,12 @@ func C19_Readers[T signal.SignalTypes]() {
 	kf := vf.IntRange("kf", 0, C*L)
 	kc := vf.Pick("kc", 0, C-1)
 	ki := 0
-	if L > 0 {
-		ki = vf.IntRange("ki", 0, L-1)
+	if full > 0 {
+		ki = vf.IntRange("ki", 0, full-1)
 	}
 	for r := 0; r < R; r++ {
 		var seq readResult[T]
-		readAll(w, C, L, is[r], as[r], bs[r], cs[r], &seq)
+		readAll(w, C, L, full, is[r], as[r], bs[r], cs[r], &seq)
 		vf.Assert("same-as-sequential", sameResult(&res[r], &seq, kf, kc, ki))
 	}
 }
@@ -107,9 +114,17 @@ func C19_Writers[T signal.SignalTypes]() {
 	w1, w2, w3 := base.Slice(0, a), base.Slice(a, b), base.Slice(b, K)
 	old := contents(base)
 	in1 := anySlice[T]("in1", w1.Len())
+	// per-channel input of the striped writer: ragged (nil, short) or full
 	in2 := make([][]T, C)
+	longest := 0
 	for c := range in2 {
-		in2[c] = anySlice[T]("in2", b-a)
+		l := vf.Pick("in2.len", -1, b-a)
+		if l >= 0 {
+			in2[c] = anySlice[T]("in2", l)
+		}
+		if l > longest {
+			longest = l
+		}
 	}
 	x := vf.Any[T]("x")
 	mode := vf.Pick("mode", 0, 1)
@@ -153,7 +168,16 @@ func C19_Writers[T signal.SignalTypes]() {
 	case k < C*b:
 		p := k - C*a
 		c := vf.Concretize(p % C)
-		want = vf.Ite(mode == 0, in2[c][p/C], x)
+		i := vf.Concretize(p / C)
+		if mode == 1 {
+			want = x
+		} else if i >= longest {
+			want = old[k] // beyond the frames the striped writer covered
+		} else if i < len(in2[c]) {
+			want = in2[c][i]
+		} else {
+			want = 0 // shorter channels are zero-filled up to the longest
+		}
 	default:
 		want = old[k]
 	}
